@@ -250,7 +250,7 @@ Import String.
    docstrings, comments and layout).  A different digest means that the model is no longer known to describe the
    code; the check then reports the broken tie and looks for a failing input. *)
 Theorem c04_models_describe_the_current_source :
-  (pin_expand, pin_finalize_expand, pin_if_fn, pin_ifeq_fn, pin_switch_fn) = ("f2db964246b00d81", "6e6193b54ac95d13", "fa2797b21d9a63fb", "01728e159ad1fbf1", "703712a604e90f3e")%string.
+  (pin_expand, pin_finalize_expand, pin_if_fn, pin_ifeq_fn, pin_switch_fn) = ("f2db964246b00d81", "6e6193b54ac95d13", "fa2797b21d9a63fb", "01728e159ad1fbf1", "405aca91ac8acede")%string.
 Proof. reflexivity. Qed.
 Print Assumptions c04_models_describe_the_current_source.
 End Pins.
